@@ -76,6 +76,16 @@ CHECKS = {
    note="Trusted: TLC, Context.tla. The k-th-customisation fault is injected through a test handler registered at run time (no /repo change). "
         "Key rendering/parsing is bound through the harness's rendering table rather than a token-level TLA+ grammar.",
    technique="TLA+ spec (MC_ContextLife.tla over Context.tla) model-checked with TLC + spec-to-implementation behaviour replay with fault injection"),
+ "C18": dict(cat=MC, design="DESIGN.md §3 C18",
+   text="Disabled.tla defines disable/enable/is_enabled/verify over the abstract kinds of stored credential (missing, empty, bare marker in both "
+        "styles, marker+hash, normal hash, django-style) for unix and django disabled schemes; TLC checks over all histories that a disabled account "
+        "never verifies, disable() is total and idempotent, enable() restores the embedded hash exactly and passes normal hashes through; simulated "
+        "histories are replayed on real CryptContext objects for original hashes of 25 real schemes with the disabled scheme listed before and "
+        "after them, text and bytes arguments; each produced disabled string is also verified against four passwords (incl. empty and itself) and "
+        "disabled again; verify(.., None) must be False with exactly one dummy verification.",
+   note="Trusted: TLC, Disabled.tla. Catch-all schemes and schemes whose hashes start with a marker character are excluded (ambiguous by construction). "
+        "Dummy verification is observed as a call, not timed.",
+   technique="TLA+ spec (Disabled.tla) model-checked with TLC + spec-to-implementation history replay on real contexts"),
 }
 PENDING = {}
 props = [json.loads(l) for l in open(os.path.join(HERE, "properties.jsonl"))]
